@@ -275,8 +275,23 @@ func cmdRace(prop string, n int, seed uint64, secs int, out string) (*Result, er
 			res := shared.Evaluate(j.flag, j.ctx, rec)
 			return L(wireDetail(res.Detail), Ab(res.IsExperiment), LL(evs)).String()
 		}
+		// the sequential baseline is computed on a SEPARATE copy of every flag and segment (and its own evaluator), so
+		// the shared objects are first touched by the concurrent phase itself (lazily filled caches would otherwise
+		// be warmed up by the baseline)
+		benv, _ := buildEnv(base)
+		baseDP := &dataProv{flags: benv.flags, segs: benv.segs}
+		baseEv := evaluation.NewEvaluatorWithOptions(baseDP, opts...)
+		twin := map[*ldmodel.FeatureFlag]*ldmodel.FeatureFlag{env.top: benv.top}
+		for k, f := range env.flags {
+			twin[f] = benv.flags[k]
+		}
 		for i := range jobs {
-			jobs[i].want = runJob(jobs[i])
+			var evs []*T
+			rec := func(e evaluation.PrerequisiteFlagEvent) {
+				evs = append(evs, L(S(e.TargetFlagKey), S(e.PrerequisiteFlag.Key), wireDetail(e.PrerequisiteResult.Detail), Ab(e.PrerequisiteResult.IsExperiment)))
+			}
+			bres := baseEv.Evaluate(twin[jobs[i].flag], jobs[i].ctx, rec)
+			jobs[i].want = L(wireDetail(bres.Detail), Ab(bres.IsExperiment), LL(evs)).String()
 			nt := len(jobs[i].flag.Prerequisites) > 0
 			for _, ru := range jobs[i].flag.Rules {
 				for _, cl := range ru.Clauses {
